@@ -1,4 +1,5 @@
 import SLModel.Core.Aggs
+import SLModel.Core.AggsLegacy
 import SLModel.Lemmas.ISort
 import SLModel.Lemmas.SMap
 import SLModel.Lemmas.AggsOrder
@@ -16,7 +17,8 @@ every limit and threshold applied once to the global counts.  All statements qua
 aggregation tree (any depth), every document list and every segmentation of it; the key atoms
 are any type with a strict total order (`String` in the driver: `stringLt_strictTotal`).
 
-**Full statement (false of the unchanged code, see the negative witnesses below):**
+**Full statement (still false of the code in one request class, see
+`date_histogram_fill_drops_offset`):**
 
 ```
 theorem segmentation_independent (a : Agg φ κ) (s₀ : List (Doc φ κ)) (rest : List (List (Doc φ κ))) :
@@ -24,16 +26,20 @@ theorem segmentation_independent (a : Agg φ κ) (s₀ : List (Doc φ κ)) (rest
 ```
 
 What is proved is `segmentation_independent_partial`: the same equation under the decidable
-hypothesis `a.safe` on the *request* — no terms `size`, terms/histogram/date_histogram
-`min_doc_count ≤ 1`, no rare_terms node, top_hits only with `from = 0`, composite histogram
-sources over f64 columns, no date_histogram that combines a calendar interval, a non-zero offset
-and bounds, no date_histogram by calendar quarter — i.e. exactly the requests on which `TermsCollector::finish` /
-`RareTermsCollector::finish` / `HistogramCollector::finish` / `DateHistogramCollector::finish`
-cannot drop, per segment, something the merged counts would keep, and on which the composite
-collector reads the column.  (top_hits with `from = 0` is exact by the top-k merge lemma
-`topN_merge`; with `from > 0` the code is wrong: `top_hits_from_per_segment`.)  Tie to the code: `Drv/C12` runs `run` and `Spec.agg`; the harness
-compares `run` with the implementation on every segment layout and `Spec.agg` with an
-independent Rust computation.
+hypothesis `a.safe` on the *request*, which since the repairs 0d5edb4 (thresholds after the
+merge), a3ebc01 (top_hits window once), 71fb08f (composite histogram over i64) and a754ee4
+(quarter of 31 May) has shrunk to one condition: no date_histogram node combines a calendar
+interval, a non-zero offset and (extended or hard) bounds — there the bounds fill of the code
+still drops the offset (open finding `date_histogram.calendar-offset-fill`).  Every terms
+`size` / `min_doc_count`, rare_terms, histogram and date_histogram `min_doc_count`, top_hits
+`from`, composite source is now covered.  An explicit terms `shard_size` (per-segment truncation,
+approximate by design) is outside the model and outside the claim.
+
+The mechanism of the code *before* the repairs lives in `Core/AggsLegacy.lean`; the
+`legacy_…` theorems below are the kernel-checked witnesses of the original defects, stated about
+`Legacy.run`.  Tie to the code: `Drv/C12` runs `run` and `Spec.agg`; the harness compares `run`
+with the implementation on every segment layout and `Spec.agg` with an independent Rust
+computation.
 -/
 namespace SL.Aggs
 open SL.ISort (StrictTotal)
@@ -86,17 +92,15 @@ theorem collect_append (h : StrictTotal (KOrd.lt (κ := κ))) :
     simp only [collect, merge, List.flatMap_append, ← vals_append]
   | .ranks f m ts, _, xs, ys => by
     simp only [collect, merge, List.flatMap_append, ← vals_append]
-  | .topHits size fromN sort, hs, xs, ys => by
-    have h0 : fromN = 0 := by simpa [Agg.safe] using hs
-    subst h0
-    simp only [collect, merge, hitsWindow_zero, List.map_append, List.length_append,
+  | .topHits size fromN sort, _, xs, ys => by
+    simp only [collect, merge, hitsKeep_eq, List.map_append, List.length_append,
       topN_merge (hitLt_strictTotal _)]
   | .bucket b subs, hs, xs, ys => by
     simp only [Agg.safe, Bool.and_eq_true] at hs
     obtain ⟨hb, hsub⟩ := hs
-    simp only [collect, merge, finishSeg_safe hb, mergePost_safe hb]
+    simp only [collect, merge, finishSeg_eq]
     congr 1
-    exact filter_raw_append h b b.minOf (BSpec.minOf_le hb) (collectList subs) (mergeList subs)
+    exact filter_raw_append h b b.minOf (BSpec.minOf_le b) (collectList subs) (mergeList subs)
       (collectList_append h subs hsub) (mergeList_nil_nil subs) (mergeList_nil_left subs)
       (mergeList_nil_right subs) xs ys
 theorem collectList_append (h : StrictTotal (KOrd.lt (κ := κ))) :
@@ -125,10 +129,8 @@ theorem finalize_collect (h : StrictTotal (KOrd.lt (κ := κ))) :
   | .cardNum f m, _, docs => by simp only [collect, finalize, Spec.agg]
   | .percentiles f m ps, _, docs => by simp only [collect, finalize, Spec.agg]
   | .ranks f m ts, _, docs => by simp only [collect, finalize, Spec.agg]
-  | .topHits size fromN sort, hs, docs => by
-    have h0 : fromN = 0 := by simpa [Agg.safe] using hs
-    subst h0
-    simp only [collect, finalize, Spec.agg, hitsWindow_zero, topN, List.drop_zero]
+  | .topHits size fromN sort, _, docs => by
+    simp only [collect, finalize, Spec.agg, hitsKeep_eq, window_of_topN]
   | .bucket b subs, hs, docs => by
     simp only [Agg.safe, Bool.and_eq_true] at hs
     obtain ⟨hb, hsub⟩ := hs
@@ -137,21 +139,9 @@ theorem finalize_collect (h : StrictTotal (KOrd.lt (κ := κ))) :
       rw [rawBuckets_map b _ _ (finalizeList_nil subs)]
       exact rawBuckets_congr b _ _ (fun d => (finalizeList_collectList h subs hsub d).symm) docs
     have hpost : finalPost b (finishSeg b (rawBuckets b (collectList subs) docs)) =
-        specPost b (rawBuckets b (collectList subs) docs) := by
-      rw [finishSeg_safe hb]
-      cases b with
-      | terms f size minDoc missing =>
-        simp only [BSpec.safe, Bool.and_eq_true, Option.isNone_iff_eq_none] at hb
-        obtain ⟨rfl, _⟩ := hb
-        rfl
-      | rare _ _ _ => simp [BSpec.safe] at hb
-      | hist _ _ _ _ _ _ _ => rfl
-      | dhist _ _ _ _ _ _ _ _ => rfl
-      | range _ _ _ => simp only [BSpec.minOf, filter_keepMin_zero]; rfl
-      | filter _ => simp only [BSpec.minOf, filter_keepMin_zero]; rfl
-      | composite _ _ _ => simp only [BSpec.minOf, filter_keepMin_zero]; rfl
-    simp only [collect, finalize, Spec.agg, rawBuckets_ideal hb]
-    rw [hch, specPost_map, hpost]
+        finalPost b (rawBuckets b (collectList subs) docs) := finalPost_finishSeg b _
+    simp only [collect, finalize, Spec.agg, specPost, rawBuckets_ideal hb]
+    rw [hch, finalPost_map, hpost]
     rfl
 theorem finalizeList_collectList (h : StrictTotal (KOrd.lt (κ := κ))) :
     ∀ (as : Aggs φ κ), as.safe = true → ∀ docs : List (Doc φ κ),
@@ -225,12 +215,12 @@ theorem merge_comm (h : StrictTotal (KOrd.lt (κ := κ))) :
     simp only [collect, merge]
     rw [sortBy_perm ratLt_strictTotal List.perm_append_comm]
   | .topHits size fromN sort, _, xs, ys => by
-    simp only [collect, merge, hitsWindow, Nat.add_comm xs.length]
+    simp only [collect, merge, hitsKeep, Nat.add_comm xs.length]
     rw [sortBy_perm (hitLt_strictTotal _) List.perm_append_comm]
   | .bucket b subs, hs, xs, ys => by
     simp only [Agg.safe, Bool.and_eq_true] at hs
     obtain ⟨hb, hsub⟩ := hs
-    simp only [collect, merge, finishSeg_safe hb, mergePost_safe hb]
+    simp only [collect, merge, finishSeg_eq]
     congr 1
     exact filter_raw_comm h b b.minOf (collectList subs) (mergeList subs)
       (mergeList_comm h subs hsub) (mergeList_nil_left subs) (mergeList_nil_right subs) xs ys
@@ -253,7 +243,8 @@ theorem swap_segments_partial (h : StrictTotal (KOrd.lt (κ := κ))) (a : Agg φ
 
 end
 
-/-! ## the unchanged code violates the full statement: kernel-checked witnesses
+/-! ## the code before the repairs violated the full statement: kernel-checked witnesses
+(`Legacy.run`; the one witness about the current `run` is `date_histogram_fill_drops_offset`)
 
 Key atoms are `Nat` (string literals do not reduce in the kernel); `counts` projects a response
 to its (key, doc_count) list. -/
@@ -269,18 +260,18 @@ def ndoc (i : Nat) (vs : List Rat) : Doc Unit Nat := ⟨i, fun _ => [], fun _ =>
 
 /-- terms `min_doc_count = 2`, key `1` once in each of two segments: the mechanism returns no
 bucket, the reference returns `1 ↦ 2` (`TermsCollector::finish` filters per segment) -/
-theorem terms_min_doc_count_per_segment :
+theorem legacy_terms_min_doc_count_per_segment :
     let a : Agg Unit Nat := .bucket (.terms () none 2 none) .nil
-    (run a [[kdoc 0 [1]], [kdoc 1 [1]]]).map counts = some [] ∧
+    (Legacy.run a [[kdoc 0 [1]], [kdoc 1 [1]]]).map counts = some [] ∧
     counts (Spec.agg a [kdoc 0 [1], kdoc 1 [1]]) = [(Key.str 1, 2)] := by
   decide
 
 /-- terms `size = 1`: segment 1 holds keys 1,1,2 and segment 2 holds keys 2,2,3,3,3.  Each
 segment keeps only its own top-1 (`1 ↦ 2`, `3 ↦ 3`), so key 2 — globally `2 ↦ 3`, the reference's
 top-1 by (count desc, key asc) — is lost and the mechanism answers `3 ↦ 3` -/
-theorem terms_size_per_segment :
+theorem legacy_terms_size_per_segment :
     let a : Agg Unit Nat := .bucket (.terms () (some 1) 1 none) .nil
-    (run a [[kdoc 0 [1], kdoc 1 [1], kdoc 2 [2]], [kdoc 3 [2], kdoc 4 [2], kdoc 5 [3], kdoc 6 [3], kdoc 7 [3]]]).map counts
+    (Legacy.run a [[kdoc 0 [1], kdoc 1 [1], kdoc 2 [2]], [kdoc 3 [2], kdoc 4 [2], kdoc 5 [3], kdoc 6 [3], kdoc 7 [3]]]).map counts
       = some [(Key.str 3, 3)] ∧
     counts (Spec.agg a [kdoc 0 [1], kdoc 1 [1], kdoc 2 [2], kdoc 3 [2], kdoc 4 [2], kdoc 5 [3], kdoc 6 [3], kdoc 7 [3]])
       = [(Key.str 2, 3)] := by
@@ -288,43 +279,43 @@ theorem terms_size_per_segment :
 
 /-- rare_terms `max_doc_count = 1`: key `1` twice in segment 1 (dropped there) and once in
 segment 2: the mechanism reports it as rare with count 1, the reference does not (count 3) -/
-theorem rare_terms_per_segment :
+theorem legacy_rare_terms_per_segment :
     let a : Agg Unit Nat := .bucket (.rare () 1 none) .nil
-    (run a [[kdoc 0 [1], kdoc 1 [1]], [kdoc 2 [1]]]).map counts = some [(Key.str 1, 1)] ∧
+    (Legacy.run a [[kdoc 0 [1], kdoc 1 [1]], [kdoc 2 [1]]]).map counts = some [(Key.str 1, 1)] ∧
     counts (Spec.agg a [kdoc 0 [1], kdoc 1 [1], kdoc 2 [1]]) = [] := by
   decide
 
 /-- rare_terms: the merge itself is not associative (a key dropped by an intermediate merge
 comes back with the next segment) -/
-theorem rare_terms_merge_not_assoc :
+theorem legacy_rare_terms_merge_not_assoc :
     let a : Agg Unit Nat := .bucket (.rare () 2 none) .nil
-    let x := collect a [kdoc 0 [1], kdoc 1 [1]]
-    let y := collect a [kdoc 2 [1]]
-    let z := collect a [kdoc 3 [1]]
-    counts (merge a (merge a x y) z) = [(Key.str 1, 1)] ∧
-    counts (merge a x (merge a y z)) = [] := by
+    let x := Legacy.collect a [kdoc 0 [1], kdoc 1 [1]]
+    let y := Legacy.collect a [kdoc 2 [1]]
+    let z := Legacy.collect a [kdoc 3 [1]]
+    counts (Legacy.merge a (Legacy.merge a x y) z) = [(Key.str 1, 1)] ∧
+    counts (Legacy.merge a x (Legacy.merge a y z)) = [] := by
   decide
 
 /-- histogram `min_doc_count = 2` (interval 10): values 1 and 2 in different segments -/
-theorem histogram_min_doc_count_per_segment :
+theorem legacy_histogram_min_doc_count_per_segment :
     let a : Agg Unit Nat := .bucket (.hist () 10 0 2 none none none) .nil
-    (run a [[ndoc 0 [1]], [ndoc 1 [2]]]).map counts = some [] ∧
+    (Legacy.run a [[ndoc 0 [1]], [ndoc 1 [2]]]).map counts = some [] ∧
     counts (Spec.agg a [ndoc 0 [1], ndoc 1 [2]]) = [(Key.num 0, 2)] := by
   decide +kernel
 
 /-- composite with a histogram source over an i64 column (`f64col = false`): no buckets at all,
 even with one segment -/
-theorem composite_histogram_i64_empty :
+theorem legacy_composite_histogram_i64_empty :
     let a : Agg Unit Nat := .bucket (.composite [.hist () 5 false] 10 none) .nil
-    (run a [[ndoc 0 [7]]]).map counts = some [] ∧
+    (Legacy.run a [[ndoc 0 [7]]]).map counts = some [] ∧
     counts (Spec.agg a [ndoc 0 [7]]) = [(Key.parts [Part.num 5], 1)] := by
   decide +kernel
 
 /-- date_histogram (calendar day) `min_doc_count = 2`: two values of the same day in different
 segments -/
-theorem date_histogram_min_doc_count_per_segment :
+theorem legacy_date_histogram_min_doc_count_per_segment :
     let a : Agg Unit Nat := .bucket (.dhist () (.calendar .day) 0 2 none none none false) .nil
-    (run a [[ndoc 0 [3600000]], [ndoc 1 [7200000]]]).map counts = some [] ∧
+    (Legacy.run a [[ndoc 0 [3600000]], [ndoc 1 [7200000]]]).map counts = some [] ∧
     counts (Spec.agg a [ndoc 0 [3600000], ndoc 1 [7200000]]) = [(Key.num 0, 2)] := by
   decide +kernel
 
@@ -344,9 +335,9 @@ theorem date_histogram_fill_drops_offset :
 /-- date_histogram, calendar quarter: a value on 1970-05-31 gets no bucket in the mechanism
 (`with_month(4)` on the 31st fails before `with_day(1)` is applied); the reference counts it in
 the quarter starting 1970-04-01.  One segment suffices. -/
-theorem date_histogram_quarter_drops_may31 :
+theorem legacy_date_histogram_quarter_drops_may31 :
     let a : Agg Unit Nat := .bucket (.dhist () (.calendar .quarter) 0 0 none none none false) .nil
-    (run a [[ndoc 0 [12960000000]]]).map counts = some [] ∧
+    (Legacy.run a [[ndoc 0 [12960000000]]]).map counts = some [] ∧
     counts (Spec.agg a [ndoc 0 [12960000000]]) = [(Key.num 7776000000, 1)] := by
   decide +kernel
 
@@ -357,10 +348,45 @@ def hitIds {κ : Type} : Node κ → List Nat
 /-- top_hits `from = 1, size = 1`, ascending by the value: documents 0,1 | 2,3.  Every segment
 skips its own best hit, the merge skips once more: the mechanism returns document 3, the
 reference (second best overall) document 1 -/
-theorem top_hits_from_per_segment :
+theorem legacy_top_hits_from_per_segment :
     let a : Agg Unit Nat := .topHits 1 1 [((), false)]
-    (run a [[ndoc 0 [1], ndoc 1 [2]], [ndoc 2 [3], ndoc 3 [4]]]).map hitIds = some [3] ∧
+    (Legacy.run a [[ndoc 0 [1], ndoc 1 [2]], [ndoc 2 [3], ndoc 3 [4]]]).map hitIds = some [3] ∧
     hitIds (Spec.agg a [ndoc 0 [1], ndoc 1 [2], ndoc 2 [3], ndoc 3 [4]]) = [1] := by
+  decide +kernel
+
+/-! ## the repaired mechanism on the inputs of the legacy witnesses -/
+
+example :
+    let a : Agg Unit Nat := .bucket (.terms () none 2 none) .nil
+    a.safe = true ∧ (run a [[kdoc 0 [1]], [kdoc 1 [1]]]).map counts = some [(Key.str 1, 2)] := by
+  decide
+
+example :
+    let a : Agg Unit Nat := .bucket (.terms () (some 1) 1 none) .nil
+    (run a [[kdoc 0 [1], kdoc 1 [1], kdoc 2 [2]], [kdoc 3 [2], kdoc 4 [2], kdoc 5 [3], kdoc 6 [3], kdoc 7 [3]]]).map counts
+      = some [(Key.str 2, 3)] := by
+  decide
+
+example :
+    let a : Agg Unit Nat := .bucket (.rare () 1 none) .nil
+    a.safe = true ∧ (run a [[kdoc 0 [1], kdoc 1 [1]], [kdoc 2 [1]]]).map counts = some [] := by
+  decide
+
+example :
+    let a : Agg Unit Nat := .topHits 1 1 [((), false)]
+    a.safe = true ∧
+    (run a [[ndoc 0 [1], ndoc 1 [2]], [ndoc 2 [3], ndoc 3 [4]]]).map hitIds = some [1] := by
+  decide +kernel
+
+example :
+    let a : Agg Unit Nat := .bucket (.composite [.hist () 5 false] 10 none) .nil
+    a.safe = true ∧ (run a [[ndoc 0 [7]]]).map counts = some [(Key.parts [Part.num 5], 1)] := by
+  decide +kernel
+
+example :
+    let a : Agg Unit Nat := .bucket (.dhist () (.calendar .quarter) 0 2 none none none false) .nil
+    a.safe = true ∧
+    (run a [[ndoc 0 [12960000000]], [ndoc 1 [12960000000]]]).map counts = some [(Key.num 7776000000, 2)] := by
   decide +kernel
 
 /-! ## non-vacuity: safe requests exist at depth 3 and the theorem computes on them -/
@@ -375,10 +401,11 @@ example :
       some (counts (Spec.agg a [kdoc 0 [1, 2], kdoc 1 [1]])) := by
   decide
 
-example : (Agg.bucket (BSpec.terms () (some 3) 1 none) Aggs.nil : Agg Unit Nat).safe = false := by
+example : (Agg.bucket (BSpec.dhist () (.calendar .month) 3600000 0 (some (0, 1)) none none false)
+    Aggs.nil : Agg Unit Nat).safe = false := by
   decide
 
-/-- top_hits with `from = 0` is inside the theorem: two segments, ascending by value -/
+/-- top_hits is inside the theorem: two segments, ascending by value -/
 example :
     let a : Agg Unit Nat := .topHits 2 0 [((), false)]
     a.safe = true ∧
